@@ -1,5 +1,6 @@
 import TsVerif.C07.Model
 import TsVerif.C07.Pools
+import TsVerif.C07.Ranges
 /-!
 # C07 — No memory-unsafe behaviour, assertion failure or leak for any conforming use
 
@@ -25,6 +26,7 @@ on, on models tied to the code; the property itself is decided on real execution
 | the recycling pools never hand out a live object, never cache more than their cap, never free twice | `pool_alloc_ok`, `pool_free_ok` (subtree pool `TS_MAX_TREE_POOL_SIZE`, stack node pool `MAX_NODE_POOL_SIZE`) |
 | capture lists are never shared between query states, the pool respects its limit | `capture_acquire_ok`, `capture_release_ok`, `capture_reset_ok` |
 | external scanner states: inline ≤ 24 bytes, heap otherwise; allocations = frees | `ess_roundtrip` |
+| an exhausted cursor into a `TSRange` array is never dereferenced: `ts_range_array_get_changed_ranges` (after the fix; the loop as found reads `ranges[count]`, see `changed_ranges_asis_reads_out_of_bounds`) and `ts_lexer__advance` (after the fix; as found: `lexer_advance_asis_reads_out_of_bounds`) | `changed_ranges_reads_in_bounds`, `lexer_advance_reads_in_bounds` |
 | `iterators_bounded`, `children_before_header` | OPEN (not ported) |
 -/
 namespace TsVerif.C07
@@ -428,5 +430,52 @@ theorem ess_roundtrip (data : List Nat) :
     ((Ess.init data).1.copy).1.data = data := by
   unfold Ess.init
   by_cases h : data.length > ESS_INLINE <;> simp [h, Ess.data, Ess.eq, Ess.delete, Ess.copy]
+
+/-! ## Range cursors (wave 5: two out-of-bounds reads found by other properties' sanitizer runs) -/
+
+/-- **`ts_range_array_get_changed_ranges`, fixed loop**: for any two lists of 32-bit ranges, every
+element of either array that the loop dereferences exists, and the loop never needs a missing
+element.  (No ordering or non-overlap assumption: the statement covers every list the setter accepts
+and more.) -/
+theorem changed_ranges_reads_in_bounds (old new : List BR) (hbo : Bounded old) (hbn : Bounded new) :
+    ∀ r ∈ (changedRanges .fixed old new).1, ReadOk old new r :=
+  crRun_fixed_reads_in_bounds hbo hbn _ _ ⟨by simp, by simp⟩
+
+/-- The loop as found dereferences `new_ranges[new_range_count]` on two lists that
+`ts_lexer_set_included_ranges` accepts: old = `[0,MAX) [MAX,MAX)`, new = `[0,5)` (the finding). -/
+theorem changed_ranges_asis_reads_out_of_bounds :
+    ∃ r ∈ (changedRanges .asis [⟨0, U32MAX⟩, ⟨U32MAX, U32MAX⟩] [⟨0, 5⟩]).1,
+      ¬ ReadOk [⟨0, U32MAX⟩, ⟨U32MAX, U32MAX⟩] [⟨0, 5⟩] r :=
+  ⟨(true, 1), by decide, by decide⟩
+
+/-- Non-vacuity: on the same input the fixed loop terminates with the expected difference. -/
+example : (changedRanges .fixed [⟨0, U32MAX⟩, ⟨U32MAX, U32MAX⟩] [⟨0, 5⟩]).2 = some [(5, U32MAX)] := by decide
+example : (changedRanges .fixed [⟨0, 3⟩, ⟨7, 9⟩] [⟨2, 8⟩]).2 = some [(0, 2), (3, 7), (8, 9)] := by decide
+example : Bounded [⟨0, U32MAX⟩, ⟨U32MAX, U32MAX⟩] := by
+  intro r hr; simp at hr; rcases hr with rfl | rfl <;> simp [U32MAX]
+
+/-- **`ts_lexer__advance`, fixed entry test**: from any lexer state whose range cursor is at most
+the count, every element of `included_ranges` it dereferences exists. -/
+theorem lexer_advance_reads_in_bounds (s : LxS) (h : s.idx ≤ s.count) :
+    ∀ i ∈ advanceReads .fixed s, i < s.count := by
+  intro i hi
+  unfold advanceReads at hi
+  by_cases hc : advanceEnters .fixed s = true
+  · rw [if_pos hc] at hi
+    simp [advanceEnters] at hc
+    have hne : s.idx ≠ s.count := hc.2
+    simp at hi
+    rcases hi with rfl | ⟨a, ha, rfl⟩
+    · omega
+    · omega
+  · rw [if_neg hc] at hi
+    simp at hi
+
+/-- As found, a lexer at the end of its ranges that still holds a chunk (reachable: `get_column`
+re-fetches a chunk at the line start after `ts_lexer_goto` has reached the end) reads
+`included_ranges[count]`. -/
+theorem lexer_advance_asis_reads_out_of_bounds :
+    ∃ s : LxS, s.idx ≤ s.count ∧ ∃ i ∈ advanceReads .asis s, ¬ i < s.count :=
+  ⟨⟨1, 1, true⟩, by decide, 1, by decide, by decide⟩
 
 end TsVerif.C07
